@@ -728,7 +728,6 @@ def _directed(rng):
         d.update({'op': 'stv_nth', 'k': k, '_tags': ['directed']})
         yield d
     yield _trace_case(rng, ['directed'], m=4, form='distributor', method='gregory', mandatory=False, step=-1)
-    yield from _audit_directed(rng)
 
 
 def _audit_directed(rng):
@@ -758,8 +757,8 @@ def _audit_directed(rng):
     yield _trace_case(rng, ['directed'], votes=sv, n=4, form='distributor', max=[[c, 2] for c in profile_cands(sv)], prev=[], **base)
     yield _trace_case(rng, ['directed'], votes=[[[[0, 1, 2, 3], 4], num_str(8 + r(0, 3))], [[[1, 2, 4]], '5'], [[4, [0, 3]], '3'], [[2], '2']],
                       n=r(2, 4), **base)
-    yield _trace_case(rng, ['directed'], votes=exhausted_quota_profile(rng), n=2, **base)
-    yield _trace_case(rng, ['directed'], votes=exhausted_quota_profile(rng), n=3, **dict(base, step=-2))
+    yield _trace_case(rng, ['directed'], votes=exhausted_quota_profile(rng), n=4, **base)
+    yield _trace_case(rng, ['directed'], votes=exhausted_quota_profile(rng), n=4, **dict(base, accept_equal=False))
     # more candidates over the quota than seats (constant quota): the over-award correction keeps the best overcounts
     yield _trace_case(rng, ['directed'], votes=[[[0], num_str(5 + r(0, 1))], [[1], '4'], [[2, 0], '3']], n=2, **dict(base, quota='const:3'))
     # previous gains of a party absent from the votes; a cap of 2 reached over two counts (quota, then last standing)
@@ -803,6 +802,8 @@ def random_like(rng):
 def generate(rng, tier):
     for c in _directed(rng):
         yield c
+    for _ in range(12 if tier == 'quick' else 60):      # each directed shape at least a dozen times per run (checklist item 9)
+        yield from _audit_directed(rng)
     N = 2500 if tier == "quick" else 40000
     for _ in range(N):
         r = rng.random()
